@@ -136,8 +136,13 @@ def updateBranch (st : CState) (style : CStyle) : String :=
 /-- `parse_page_selectors`: outcome kind and shape. -/
 def parseBranch (prelude : List Tok) : String :=
   match parsePageSelectors prelude with
-  | .raised => "parse:raised"
-  | .reject => "parse:rejected"
+  | .raised _ => "parse:raised"
+  | .reject =>
+    -- a rejected prelude one of whose `:nth()` oracle tables holds a caught exception (`2n+`)
+    if prelude.any (fun t => match t with
+        | .func _ _ table => table.any (fun e => match e with | .raised c => nthCaught c | _ => false)
+        | _ => false) then "parse:rejected-raising-nth"
+    else "parse:rejected"
   | .ok sels =>
     "parse:ok" ++ (if sels.length > 1 then "-list" else "") ++
       (if sels.any (fun s => s.name.isSome) then "-name" else "") ++
@@ -162,6 +167,6 @@ def allTags : List String :=
   ["match:side-no", "match:blank-no", "match:first-no", "match:name-no", "match:yes-no-nth",
    "match:nth-a0-yes", "match:nth-a0-no", "match:nth-pos-yes", "match:nth-pos-no", "match:nth-neg-yes",
    "match:nth-neg-no", "match:nth-of-name-no", "match:nth-of-yes", "match:nth-of-no", "match:nth-of-no-group",
-   "update:KeyError", "update:IndexError", "update:AssertionError", "parse:raised", "parse:rejected"]
+   "update:KeyError", "update:IndexError", "update:AssertionError", "parse:rejected-raising-nth", "parse:rejected"]
 
 end Wp.PageBranches
